@@ -1,51 +1,26 @@
 (* C17: Faucet pours respect the per-client and global limits.
    Only statements; each is closed by [exact] of a lemma in Proof/Faucet.v.
-   The model follows smartcontract/faucetsc as written: validPourRequest compares
-   pour_amount with the limits and the balance, pour then moves the requested value when
-   0 < value < max_pour_amount. The full statement is therefore false of the code (witness
-   below); it is proved for every history with no request strictly between pour_amount and
-   max_pour_amount. *)
+   The model follows smartcontract/faucetsc: pour first fixes the amount (the requested value when
+   0 < value < max_pour_amount, else pour_amount) and validPourRequest compares that amount with
+   the faucet balance and with both limits. (Before commit eb5f363 of /repo the comparison used
+   pour_amount; the oracle signature C17:limit-checked-with-pour-amount-not-poured-value stands for
+   that defect and must not fire any more.) *)
 From ZC Require Import Model.Faucet Proof.Faucet.
 Open Scope Z_scope.
 
-(* Full statement: for every valid configuration and every history of pour / refill /
+(* For every configuration accepted by validate and every history of pour / refill /
    update-settings requests (any clients, values, timestamps, balances), within each reset
    window (windows recomputed from the observable trace, see the fcs definitions in Model/Faucet.v)
    a client never receives more than periodic_limit, all clients together never more than
    global_limit, and no pour exceeds the faucet balance it was served from. *)
-Definition C17_full_statement : Prop :=
-  forall cfg ops, fc_cfg_wf cfg -> fc_validate cfg = true -> Forall fc_op_wf ops ->
-    let evs := snd (fc_run (fc_init cfg) ops) in
-    (forall c, fcs_client_within c None evs) /\
-    fcs_global_within (fc_zero_time, 0) evs /\
-    Forall fcs_pour_within_balance evs.
-
-(* False of the code as it is: pour 10 / max 100 / periodic 100 / global 100, faucet holds 50,
-   one client asks for 50 and then 99 one second later: receives 149 in one window. *)
-Theorem C17_limits_refuted : ~ C17_full_statement.
-Proof. exact fc_refuted. Qed.
-Print Assumptions C17_limits_refuted.
-
-(* the same witness breaks each of the three parts *)
-Theorem C17_each_part_refuted :
-  let evs := snd (fc_run (fc_init fc_wit_cfg) fc_wit_ops) in
-  ~ (forall c, fcs_client_within c None evs) /\ ~ fcs_global_within (fc_zero_time, 0) evs /\
-  ~ Forall fcs_pour_within_balance evs.
-Proof. exact fc_refuted_each. Qed.
-Print Assumptions C17_each_part_refuted.
-
-(* Outside exactly that trigger the statement holds, for all configurations accepted by
-   validate, all histories (including update-settings and refills, any timestamps, any
-   balances): *)
-Theorem C17_limits_partial :
+Theorem C17_limits :
   forall cfg ops, fc_validate cfg = true ->
     let evs := snd (fc_run (fc_init cfg) ops) in
-    (forall e, In e evs -> ~ fc_unchecked_value e) ->
     (forall c, fcs_client_within c None evs) /\
     fcs_global_within (fc_zero_time, 0) evs /\
     Forall fcs_pour_within_balance evs.
-Proof. exact fc_partial. Qed.
-Print Assumptions C17_limits_partial.
+Proof. exact fc_full. Qed.
+Print Assumptions C17_limits.
 
 (* update-settings never installs a configuration rejected by validate *)
 Theorem C17_config_stays_valid :
@@ -59,15 +34,20 @@ Theorem C17_refused_changes_nothing :
 Proof. exact fc_fail_noop. Qed.
 Print Assumptions C17_refused_changes_nothing.
 
-(* Non-vacuity: a history outside the trigger in which pours succeed, the periodic limit then
-   refuses, the window restarts, a refill and a settings update happen. *)
+(* the history that exceeded the periodic limit before the repair: the second request is refused *)
+Example C17_former_witness :
+  map ev_out (snd (fc_run (fc_init fc_wit_cfg) fc_wit_ops)) = [FcPoured 50; FcFail].
+Proof. exact fc_wit_trace. Qed.
+
+(* Non-vacuity: pours succeed (also with a requested value between pour_amount and max), the
+   periodic limit then refuses, the window restarts, a refill and a settings update happen. *)
 Example C17_example :
   let cfg := {| fc_pour := 10; fc_max := 20; fc_plimit := 25; fc_glimit := 40;
                 fc_ireset := 60 * fc_second; fc_greset := 120 * fc_second |} in
   map ev_out (snd (fc_run (fc_init cfg)
-    [FcPour 1 1000 0 (Some 500); FcPour 1 1001 7 (Some 490); FcPour 1 1002 200 (Some 483);
-     FcPour 2 1003 10 (Some 483); FcPour 2 1004 10 (Some 473); FcRefill 3 1005 5 (Some 9);
-     FcUpdate true 1006 true [(FGLimit, 1000)]; FcPour 1 1070 10 (Some 9); FcPour 1 1071 10 (Some 500)]))
-  = [FcPoured 10; FcPoured 7; FcFail; FcPoured 10; FcPoured 10; FcRefilled 5; FcUpdated; FcFail; FcPoured 10]
+    [FcPour 1 1000 0 (Some 500); FcPour 1 1001 12 (Some 490); FcPour 1 1002 200 (Some 483); FcPour 1 1002 3 (Some 483);
+     FcPour 2 1003 10 (Some 483); FcPour 2 1004 19 (Some 473); FcPour 2 1004 5 (Some 473); FcRefill 3 1005 5 (Some 9);
+     FcUpdate true 1006 true [(FGLimit, 1000)]; FcPour 1 1070 10 (Some 9); FcPour 1 1071 19 (Some 500)]))
+  = [FcPoured 10; FcPoured 12; FcFail; FcPoured 3; FcPoured 10; FcFail; FcPoured 5; FcRefilled 5; FcUpdated; FcFail; FcPoured 19]
   /\ fc_validate cfg = true.
 Proof. vm_compute. split; reflexivity. Qed.
